@@ -46,16 +46,16 @@ extern int mpt_outdata_reply(MPT_STRUCT(outdata) *out, size_t len, const void *h
 		len = mpt_message_read(&msg, sizeof(tmp) - ilen, tmp + ilen);
 		/* temporary reply limit exceeded */
 		if ((left = mpt_message_length(&msg))) {
-			len += ilen + left;
+			size_t first = len;
+			len += left;
 			/* use temporary data in unused buffer segment */
-			if (!(ptr = mpt_array_append(&out->buf, len, 0))) {
+			if (!(ptr = mpt_array_append(&out->buf, ilen + len, 0))) {
 				return MPT_ERROR(MissingBuffer);
 			}
-			out->buf._buf->_used -= len;
-			if (ilen) {
-				memcpy(ptr, hdr, ilen);
-			}
-			len = mpt_message_read(&msg, len - ilen, ptr + ilen);
+			out->buf._buf->_used -= ilen + len;
+			/* id and message part already taken from the message */
+			memcpy(ptr, tmp, ilen + first);
+			mpt_message_read(&msg, left, ptr + ilen + first);
 		}
 	}
 	ret = sendto(out->sock._id, ptr, ilen + len, 0, hdr, slen);
